@@ -1,6 +1,7 @@
 import RsddModel.Driver.Parse
 import RsddModel.Model.CacheList
 import RsddModel.Model.BddWmc
+import RsddModel.Model.BddStore
 /-!
 # Driver: the `bdd` stream (C01, C02 builder half, C16 builder half)
 
@@ -142,6 +143,20 @@ def checkBddLine (kvs : List (String × String)) (rhs : String) : String := Id.r
     for ((p, q), i) in (st.pool.zip impl).zipIdx do
       if p != q then
         return s!"FAIL MODEL op#{i} model={printBdd p} impl={printBdd q}"
+  -- (4) the store-level model (references into a hash-consed node list, `Props/C02Store.lean`):
+  -- its references unfold to the implementation's diagrams and are equal exactly when the
+  -- implementation's pointers are
+  match BddStore.runS BddStore.ListCacheS lvl 200 (BddStore.StS.init BddStore.ListCacheS n) ops with
+  | none => return "FAIL MODEL the store-level model rejects a program the implementation accepts"
+  | some ss =>
+    if ss.pool.length != impl.length then return "FAIL MODEL store-level pool length"
+    for ((r, q), i) in (ss.pool.zip impl).zipIdx do
+      if Scratch.unfold ss.store r != q then
+        return s!"FAIL MODEL op#{i} store-level model={printBdd (Scratch.unfold ss.store r)} impl={printBdd q}"
+    for (c, i) in eqc.zipIdx do
+      let cls := (List.range (i + 1)).find? (fun j => ss.pool[j]? == ss.pool[i]?)
+      if cls != some c then
+        return s!"FAIL MODEL op#{i}: the implementation's pointer is first equal to #{c}, the store-level reference to #{cls}"
   let nt := (impl.filter isNontrivial).eraseDups.length
   return s!"ok nontrivial={nt}"
 
